@@ -184,3 +184,10 @@ mod tests {
         assert!(!writer.is_dirty());
     }
 }
+
+#[cfg(funbiscuit_embedded_cli_rs_verif)]
+impl<W: Write<Error = E>, E: Error> Writer<'_, W, E> {
+    pub fn __verif_is_dirty(&self) -> bool {
+        self.is_dirty()
+    }
+}
